@@ -139,6 +139,8 @@ impl Arguments<'_> {
                 // User clearly wants return to bash
                 if command_name == "sudo" {
                     println!("Goodbye");
+                    #[cfg(lace_verif)]
+                    crate::verif::exit(0);
                     std::process::exit(0);
                 }
 
